@@ -199,6 +199,24 @@ pub fn cmd_interner(cmd: &Value) -> Value {
 		"base_contains": base_contains})
 }
 
+// ---------------------------------------------------------------- pre-interning (C16)
+
+thread_local! {
+	static HELD: RefCell<Vec<IStr>> = const { RefCell::new(Vec::new()) };
+}
+/// Intern `n` distinct strings and keep them alive for the rest of the worker's life, so that later
+/// evaluations run with a different interner pool (addresses, hash-table layout).
+pub fn cmd_preintern(cmd: &Value) -> Value {
+	let n = cmd["n"].as_u64().unwrap_or(0);
+	let tag = cmd["tag"].as_str().unwrap_or("pre");
+	HELD.with_borrow_mut(|h| {
+		for i in 0..n {
+			h.push(IStr::from(format!("{tag}{i}")));
+		}
+	});
+	json!({"k":"preinterned","pool": jrsonnet_interner::verif::pool_len()})
+}
+
 // ---------------------------------------------------------------- thunk graphs (C03)
 
 thread_local! {
